@@ -631,7 +631,7 @@ theorem dddmpReindex_ok (L : List (Tok × Int)) (hkeys : (L.map (·.1)).Nodup)
   -- first `mapM`
   have hm1 : (sortInts (L.map (·.2))).zipIdx.mapM (dddmpPermItem (L.map fun p => (p.2, p.1))) =
       .ok ((sortInts (L.map (·.2))).zipIdx.map fun p => ((p.2 : Int), vo p.1)) := by
-    apply mapM_ok
+    apply dddmp_mapM_ok
     intro p hp
     obtain ⟨var, hv⟩ := hSmem p.1 (by
       have := List.mem_zipIdx_iff_getElem?.mp hp
@@ -689,7 +689,7 @@ theorem dddmpReindex_ok (L : List (Tok × Int)) (hkeys : (L.map (·.1)).Nodup)
       ((sortInts (L.map (·.2))).zipIdx.map fun p => (vo p.1, (p.2 : Int)))) =
       .ok (L.map fun p => (p.2,
         (dictGet ((sortInts (L.map (·.2))).zipIdx.map fun p => (vo p.1, (p.2 : Int))) p.1).getD 0)) := by
-    apply mapM_ok
+    apply dddmp_mapM_ok
     intro p hp
     obtain ⟨i, _, hi⟩ := hpos p.1 p.2 hp
     simp [dddmpO2nItem, hi]
@@ -1034,7 +1034,7 @@ theorem dddmpLoad_spec_of_foaSpec (H : FoaSpec) (f : DddmpFile) (hf : f.WF) :
   have hmem : ∀ ρ, ρ ∈ roots ↔ ρ ∈ f.rootids.getD [] := by
     intro ρ; rw [hmr]; exact mem_dedupInts _ _
   have hmap : roots.mapM (dddmpRootItem umap) = .ok (roots.map g) :=
-    mapM_ok _ _ _ (fun ρ hρ => (hg ρ ((hmem ρ).mp hρ)).1)
+    dddmp_mapM_ok _ _ _ (fun ρ hρ => (hg ρ ((hmem ρ).mp hρ)).1)
   have hU : loadDddmpU f = .ok ({ m with roots := dedupInts (roots.map g) }, umap) := by
     simp [loadDddmpU, hload, hmap]
   refine ⟨{ m with roots := dedupInts (roots.map g) }, umap, hU, by simp [loadDddmp, hU, Except.map],
